@@ -107,6 +107,35 @@ func init() {
 				l = append(l, g)
 			}
 		}
+		// special list shapes: nothing fine enough to merge (only inputs coarser than the target, some repeated); the
+		// empty list; a single input
+		switch rng.Intn(12) {
+		case 0:
+			var coarse []ext
+			for k := 1 + rng.Intn(3); k > 0; k-- {
+				e := clampExt(ext{g.h, g.x + int64(rng.Intn(3)-1), g.y, g.v, g.f + int64(rng.Intn(3)-1)})
+				if spatial {
+					if e.h > 0 {
+						e = ext{e.h - 1, e.x >> 1, e.y >> 1, e.v - 1, e.f >> 1}
+					}
+				} else if e.v > 0 && rng.Intn(2) == 0 {
+					e = ext{e.h, e.x, e.y, e.v - 1, e.f >> 1}
+				} else if e.h > 0 {
+					e = ext{e.h - 1, e.x >> 1, e.y >> 1, e.v, e.f}
+				}
+				coarse = append(coarse, e)
+				if rng.Intn(2) == 0 {
+					coarse = append(coarse, e)
+				}
+			}
+			l = coarse
+		case 1:
+			l = nil
+		case 2:
+			if len(l) > 0 {
+				l = l[:1]
+			}
+		}
 		rng.Shuffle(len(l), func(i, j int) { l[i], l[j] = l[j], l[i] })
 		if len(l) > 200 {
 			l = l[:200]
